@@ -61,12 +61,15 @@ TreeAnswer(kind, setters, which, n, callerTree) ==
     [] kind = "mafft" /\ which = "default" -> <<ToolTree("default", n)>>
     [] OTHER -> <<>>
 
-\* get_distance_matrix(): k = "nogetter" | "absent" (the program was not asked for a matrix:
-\* nothing to hand out) | "value"
+\* get_distance_matrix(): the SET of acceptable answers [k, m]; k = "nogetter" | "absent"
+\* (nothing is handed out: refused, or None) | "value" (the matrix m).
+\* After full_matrix_calculation() the program is asked for its matrix and the answer is that
+\* matrix.  Without it the property does not say whether the program is asked: nothing may be
+\* handed out, or the matrix the program wrote - never anything else (the caller's own input).
 DistAnswer(kind, setters, n) ==
-  IF kind # "clustalo" THEN [k |-> "nogetter", m |-> <<>>]
-  ELSE IF Uses(setters, "full") THEN [k |-> "value", m |-> ToolMatrix(n)]
-  ELSE [k |-> "absent", m |-> <<>>]
+  IF kind # "clustalo" THEN {[k |-> "nogetter", m |-> <<>>]}
+  ELSE IF Uses(setters, "full") THEN {[k |-> "value", m |-> ToolMatrix(n)]}
+  ELSE {[k |-> "absent", m |-> <<>>], [k |-> "value", m |-> ToolMatrix(n)]}
 
 Extras(kind, setters, n, callerTree) ==
   [dist |-> DistAnswer(kind, setters, n),
